@@ -1042,12 +1042,49 @@ func plainConstructor(fn *ssa.Function) bool {
 	if fn.Blocks == nil {
 		return false
 	}
+	// what the caller handed in: the parameters, their elements (functional options: `for _, o := range opts { o(p) }`)
+	fromParam := map[ssa.Value]bool{}
+	for _, p := range fn.Params {
+		fromParam[p] = true
+	}
+	for changed := true; changed; {
+		changed = false
+		for _, b := range fn.Blocks {
+			for _, in := range b.Instrs {
+				switch in := in.(type) {
+				case *ssa.IndexAddr:
+					if fromParam[in.X] && !fromParam[in] {
+						fromParam[in], changed = true, true
+					}
+				case *ssa.UnOp:
+					if fromParam[in.X] && !fromParam[in] {
+						fromParam[in], changed = true, true
+					}
+				}
+			}
+		}
+	}
 	for _, b := range fn.Blocks {
 		for _, in := range b.Instrs {
 			switch in := in.(type) {
 			case *ssa.Alloc, *ssa.Return, *ssa.DebugRef, *ssa.MakeInterface:
 			case *ssa.Store, *ssa.FieldAddr:
 				_ = in
+			case *ssa.Phi, *ssa.BinOp, *ssa.If, *ssa.Jump:
+				// the counter and test of a loop over the options
+			case *ssa.IndexAddr, *ssa.UnOp:
+				if !fromParam[in.(ssa.Value)] {
+					return false
+				}
+			case *ssa.Call:
+				if bi, ok := in.Call.Value.(*ssa.Builtin); ok && bi.Name() == "len" && len(in.Call.Args) == 1 && fromParam[in.Call.Args[0]] {
+					continue
+				}
+				// an option supplied by the caller applied to the new value: what it does to it is the caller's own doing,
+				// like assigning the fields after the constructor returned
+				if in.Call.IsInvoke() || !fromParam[in.Call.Value] {
+					return false
+				}
 			default:
 				return false
 			}
@@ -1151,7 +1188,8 @@ func (a *Analysis) CheckC10(rep *Report) {
 	rep.Explanation = "Taint rule over every path of every Decode (module callees inlined) and of every reader primitive in its generic body and every instantiation. Sources: values read from the buffer (binary.Read targets, read byte counts). Sinks: the length and capacity of every make, the count of bytes.Repeat/strings.Repeat, (*Buffer).Grow. A sink whose size derives from a source must be sanitised: dominated on the path by a comparison of that same value with buf.Len() that leaves with an error when larger, or be min(value, buf.Len()). Loop growth by append is bounded by C09-P2 (every iteration consumes input). Constant sizes (all fixedLen arguments are literals at the call sites) are untainted. The evidence lists every sink with its sanitiser."
 	rep.Trusted = append(trustedBase(), "allocator behaviour and the constant factor (element size x bytes present) are reported, not judged")
 	rep.Exhaustive = true
-	nsinks := 0
+	nsinks, nloops := 0, 0
+	sf := &safety{a: a, minSizeMemo: map[string]int64{}}
 	check := func(key string, fn *ssa.Function, paths []*Path) {
 		for _, p := range paths {
 			walkWithConds(p, func(e *Event, conds []Cond, reps []*Event) {
@@ -1167,6 +1205,42 @@ func (a *Analysis) CheckC10(rep *Report) {
 					sizes, what = []*Val{e.Src}, "make(map)"
 				case e.Kind == EvBufOther && e.Mode == "Grow":
 					sizes, what = e.Args, "Grow"
+				case e.Kind == EvRep:
+					// T2: work and memory per decode call are bounded by the input only if a loop whose trip count comes off
+					// the wire consumes input on every completed iteration (or leaves): an iteration that can complete
+					// without reading – a failed element whose error is noted and the loop carried on – makes a fresh
+					// element, or at least a turn, per announced element whatever the input holds
+					countFromWire := e.Count != nil && e.Count.Contains(func(x *Val) bool { return x.Op == "wire" || x.Op == "unknown" || x.Op == "short" })
+					if e.Bounded == "range" || e.Bounded == "shrinking" || !countFromWire {
+						return
+					}
+					minb := int64(-1)
+					symbolic := false
+					for _, arm := range e.Iter {
+						if b := sf.iterationMinBytes(arm); minb < 0 || b < minb {
+							minb = b
+						}
+						walkEvents(arm.Events, func(x *Event, _ int) {
+							if _, isC := affOf(x.Size).IsConst(); x.Kind == EvReadBytes && !x.Failed && x.Size != nil && !isC && !x.Size.Contains(func(y *Val) bool { return y.Op == "wire" || y.Op == "short" || y.Op == "unknown" }) {
+								symbolic = true // a width that is a parameter of the primitive: decided where it is a literal, in the Decode that calls it
+							}
+							if _, isTP := x.IntType.(*types.TypeParam); x.Kind == EvReadInt && !x.Failed && isTP && !numberTypeSet(x.IntType) {
+								symbolic = true // a number whose type is a type parameter admitting int/uint: decided per instantiation
+							}
+							if x.Kind == EvObj && x.Dir == "Decode" && !x.Failed && x.Callee == nil {
+								if r := stripCT(x.Recv); r == nil || r.Op != "alloc" || r.Type == nil || a.U.TypeOf(r.Type) == nil {
+									symbolic = true // an element whose type is the primitive's type parameter: decided per instantiation, in the Decode that calls it
+								}
+							}
+						})
+					}
+					if symbolic && minb < 1 {
+						return
+					}
+					nloops++
+					rep.Ob("T2-wire-counted-loop-consumes-input", key+":loop@"+siteKey(e), minb >= 1, epos,
+						fmt.Sprintf("a loop that runs once per element announced on the wire (%s) can complete an iteration without consuming input: its work and allocations follow the announced count, not the bytes present", valOrNil(e.Count)))
+					return
 				default:
 					return
 				}
@@ -1202,6 +1276,7 @@ func (a *Analysis) CheckC10(rep *Report) {
 		check(FuncName(pp.fn), pp.fn, pp.paths)
 	}
 	rep.Counts["allocation_sinks"] = nsinks
+	rep.Counts["wire_counted_loops"] = nloops
 	rep.Counts["reader_primitives_and_instances"] = np
 	rep.Floor("allocation_sinks", nsinks, 100)
 	rep.Floor("codec_types", len(a.U.Types), goldenFloor("types", 170))
@@ -1324,6 +1399,7 @@ func (a *Analysis) CheckC18(rep *Report) {
 	rep.Trusted = append(trustedBase(), "64-bit int")
 	rep.Exhaustive = true
 	nprefix := 0
+	guardedPrefix := map[*Event]bool{} // prefix writes that O1 found guarded
 	check := func(key string, fn *ssa.Function, paths []*Path) {
 		for _, p := range paths {
 			// O2: failing guard arms must be error paths
@@ -1349,6 +1425,9 @@ func (a *Analysis) CheckC18(rep *Report) {
 				ord := "count"
 				if len(reps) > 0 {
 					ord = "element-prefix"
+				}
+				if guarded {
+					guardedPrefix[e] = true
 				}
 				rep.Ob("O1-prefix-guarded", fmt.Sprintf("%s:%s(%s)", key, inner, ord), guarded, a.P.Pos(e.Pos),
 					fmt.Sprintf("%s is written as a length prefix without a dominating overflow check: a value longer than the prefix can represent wraps around and the full data follows", e.Src.Pretty()))
@@ -1453,6 +1532,75 @@ func (a *Analysis) CheckC18(rep *Report) {
 			continue
 		}
 		check(ct.Name+".Encode", ct.Encode, r.EncPaths)
+		// O6: O1 finds prefixes by their shape (a number written from a narrowed length). Which fields HAVE a prefix is
+		// not a matter of shape: every counted list and every length-prefixed text of the type's wire layout must have
+		// its prefix among the writes O1 examined and found guarded – a prefix written some other way (assembled in a
+		// scratch array, shifted out byte by byte) with a check of its own is not one this rule can vouch for
+		tl := a.Layouts(ct)
+		if tl.EncMain == nil {
+			continue
+		}
+		var gold []*FieldLayout
+		if g, err := loadGolden(); err == nil {
+			gold = g.Types[ct.Name]
+		}
+		if len(gold) > 0 && len(gold) != len(tl.EncMain.Layout.Fields) {
+			prefixed := false
+			for _, gf := range gold {
+				if gf.Kind == "list" || gf.Kind == "ptext" {
+					prefixed = true
+				}
+			}
+			if prefixed {
+				rep.Ob("O6-every-prefix-of-the-layout-guarded", ct.Name+":layout", false, a.P.Pos(ct.Encode.Pos()),
+					fmt.Sprintf("Encode writes %d wire fields where the schema has %d: the counts and length prefixes of the schema's lists and texts cannot be located among them, so nothing shows that they are guarded", len(tl.EncMain.Layout.Fields), len(gold)))
+			}
+			continue
+		}
+		for i, f := range tl.EncMain.Layout.Fields {
+			var need []*FieldLayout
+			kind, elemKind := f.Kind, ""
+			if f.Elem != nil {
+				elemKind = f.Elem.Kind
+			}
+			if i < len(gold) && len(gold) == len(tl.EncMain.Layout.Fields) {
+				// (the pinned schema says which fields are counted or prefixed, however the tree writes them)
+				kind = gold[i].Kind
+				if gold[i].Elem != nil {
+					elemKind = gold[i].Elem.Kind
+				}
+			}
+			switch kind {
+			case "ptext":
+				need = append(need, f)
+			case "list":
+				need = append(need, f)
+				if elemKind == "ptext" {
+					el := f.Elem
+					if el == nil {
+						el = &FieldLayout{Kind: "irregular"}
+					}
+					need = append(need, el)
+				}
+			}
+			for j, nf := range need {
+				okP := len(nf.Ev) > 0 && nf.Ev[0].Kind == EvWriteInt && guardedPrefix[nf.Ev[0]]
+				what := "count"
+				if nf.Kind == "ptext" {
+					what = "length"
+				}
+				pos := a.P.Pos(ct.Encode.Pos())
+				src := "?"
+				if len(nf.Ev) > 0 {
+					pos = a.P.Pos(rootPos(nf.Ev[0]))
+					if nf.Ev[0].Src != nil {
+						src = nf.Ev[0].Src.Pretty()
+					}
+				}
+				rep.Ob("O6-every-prefix-of-the-layout-guarded", fmt.Sprintf("%s#%d.%d(%s)", ct.Name, i, j, f.Name), okP, pos,
+					fmt.Sprintf("the %s prefix of field %s is written from %s, which is not a narrowed length behind one of the accepted overflow checks: nothing shows that exactly the values that fit are accepted", what, f.Name, src))
+			}
+		}
 	}
 	np := 0
 	for _, pp := range a.allPrimPaths() {
